@@ -501,6 +501,24 @@ def order_terminal_cases():
     return out
 
 
+def zero_reserve_cases():
+    """closable by construction: a non-empty right terminal AND a repeat unit with a further zero-weight descriptor that an end group has to
+    cap (the "never grow from here" idiom): when the molecule is finalised all descriptors still to be capped can have weight 0 — the descriptor
+    reserved for the right terminal must nevertheless stay out of that pick"""
+    texts = ["C{[$] [$]C(CC[<])(C[>3|0|])C[$2|0|], [>]CC[<]; [>][H], [<3]F [$2]}|uniform(100, 101)|[Br]",
+             "N{[$] [$]C(CO[<])(C[>4|0|])C[$1|0|], [>]CO[<]; [>][H], [<4]Cl [$1]}|uniform(100, 101)|F",
+             "C{[$] [$]C(CC[<])(C[>3|0|])C[$2|0|], [>]CC[<]; [>][H], [<3]F [$2]}|uniform(60, 200)|{[$2] [$2]CS[$2]; [$2]O []}|uniform(40, 90)|"]
+    out = []
+    for t in texts:
+        try:
+            c = parse_case(t, "zeroreserve")
+        except Exception:
+            c = None
+        if c is not None:
+            out.append(c)
+    return out
+
+
 def corpus_cases():
     from corpus import notation_strings
     out = []
